@@ -43,10 +43,13 @@ theorem half_accepted (g n k : Nat) (hn : 0 < n) (hg : 0 < g) (h : 2 * k ≤ min
   have hge : 0 < geff g n := by unfold geff; omega
   have hk : k < geff g n := by unfold geff at *; omega
   refine ⟨hk, ?_⟩
-  unfold lastread
+  have hgn : geff g n ≤ n := Nat.min_le_left _ _
+  by_cases hs : geff g n = n
+  · rw [lastread_single g n k hs]; omega
+  rw [lastread_multi g n k hs]
+  unfold lastreadM
   simp only
   have hst : 0 < geff g n - k := by omega
-  have hgn : geff g n ≤ n := Nat.min_le_left _ _
   split
   · rename_i hr
     -- corrected: last = n - (q-1)*st ≥ st ≥ k
@@ -74,10 +77,12 @@ theorem accepted_run (g s n k N : Nat) (h : Accepted g n k) (hr : s + n ≤ N) :
   have hkst : k + (geff g n - k) = geff g n := by omega
   -- all full blocks fit: the last full block ends at s + nreads*st + k ≤ s + n
   have hfit : nreads g n k = 0 ∨ s + (0 + nreads g n k - 1) * (geff g n - k) + geff g n ≤ N := by
+    rcases Nat.eq_zero_or_pos (nreads g n k) with hz0 | hpos
+    · left; exact hz0
     right
     have e : (0 + nreads g n k - 1) * (geff g n - k) = nreads g n k * (geff g n - k) - (geff g n - k) := by
       rw [Nat.zero_add, Nat.sub_mul, Nat.one_mul]
-    have h3 : (geff g n - k) ≤ nreads g n k * (geff g n - k) := Nat.le_mul_of_pos_left _ A.nr
+    have h3 : (geff g n - k) ≤ nreads g n k * (geff g n - k) := Nat.le_mul_of_pos_left _ hpos
     have := A.total; have := A.hlast
     rw [e]; omega
   rw [List.range_eq_range']
@@ -104,7 +109,13 @@ theorem expected_delivers (g s n k : Nat) (h : Accepted g n k) :
   obtain ⟨hk, hl⟩ := h
   have A := arith_of g n k hk hl
   have hkst : k + (geff g n - k) = geff g n := by omega
-  obtain ⟨m, hm⟩ : ∃ m, nreads g n k = m + 1 := ⟨nreads g n k - 1, by have := A.nr; omega⟩
+  rcases Nat.eq_zero_or_pos (nreads g n k) with hz0 | hpos
+  · -- a single block holding the whole range
+    have hl0 := A.nr hz0
+    have hn : n ≠ 0 := by have := Nat.min_le_left n g; unfold geff at hk; omega
+    unfold expected
+    simp [hz0, hl0, hn, delivered]
+  obtain ⟨m, hm⟩ : ∃ m, nreads g n k = m + 1 := ⟨nreads g n k - 1, by omega⟩
   unfold expected
   simp only
   rw [hm, List.range'_succ, List.map_cons, List.cons_append, delivered]
@@ -179,6 +190,8 @@ theorem plan_values {α} (flat : Nat → α) (g s n k N : Nat) (hr : s + n ≤ N
 example : Accepted 4 10 1 := by decide
 example : runPlan 4 0 10 1 10 = ⟨[⟨0, 0, 4⟩, ⟨1, 3, 4⟩, ⟨2, 6, 4⟩, ⟨3, 9, 1⟩], none⟩ := by decide
 example : Accepted 512 1300 200 := by decide
+-- a range that fits in one gulp is read as a single block whatever the (smaller) skipback
+example : runPlan 16 1 8 7 20 = ⟨[⟨0, 1, 8⟩], none⟩ := by decide
 -- gulp=4, nsamps=10, skipback=3 cannot be honoured and is rejected before anything is yielded
 example : ¬ Accepted 4 10 3 := by decide
 example : runPlan 4 0 10 3 12 = ⟨[], some .valueError⟩ := by decide
